@@ -41,6 +41,13 @@ def _assign_nodes(g, path):
     return out
 
 
+def _parents_b(n):
+    p = getattr(n, "_parent", None)
+    while p is not None:
+        yield p
+        p = getattr(p, "_parent", None)
+
+
 def sower_facts(ctx):
     """Locate, by role, the Sower's flush method, its buffer, batch counter and
     in-batch counter."""
@@ -78,6 +85,27 @@ def sower_facts(ctx):
             f.counter = k
     need(f.counter is not None, "idiom changed: the batch file name is not batches/BTCH_NM.format(<a counter incremented in %s>): %s" % (f.flush.name, norm(f.wcall)))
     f.counter_expr = ast.parse(f.counter, mode="eval").body
+    # the flush method handed to a function instead of being called: a retry / repeat wrapper re-executes a method that is not
+    # idempotent (it advances the batch counter before it writes)
+    from ..util import callee_func
+    for m_ in (f.call, f.exit):
+        for c_ in walk_shallow(m_.node):
+            if isinstance(c_, ast.Call) and any(isinstance(a_, ast.Attribute) and norm(a_) == "self." + f.flush.name for a_ in list(c_.args) + [k.value for k in c_.keywords]):
+                cf = callee_func(ctx, m_, c_)
+                need(cf is not None, "idiom changed: %s.%s is handed to `%s`" % (sower.name, f.flush.name, norm(c_.func)))
+                ctx.touch(cf)
+                pos = [i for i, a_ in enumerate(c_.args) if norm(a_) == "self." + f.flush.name]
+                pname = cf.positional[pos[0]] if pos and pos[0] < len(cf.positional) else None
+                need(pname is not None, "idiom changed: how %s receives the flush method" % cf.name)
+                calls_p = [x for x in ast.walk(cf.node) if isinstance(x, ast.Call) and isinstance(x.func, ast.Name) and x.func.id == pname]
+                in_loop = any(isinstance(p_, (ast.For, ast.While)) for x in calls_p for p_ in _parents_b(x))
+                if calls_p and in_loop:
+                    f.retry_wrapper = (m_, c_, cf)
+                else:
+                    raise AnalysisError("idiom changed: %s.%s is called through `%s`" % (sower.name, f.flush.name, cf.name))
+    if getattr(f, "retry_wrapper", None):
+        f.cut = None
+        return f
     # cut test: the test in __call__ whose true branch flushes; in-batch counter: its attribute side
     gc = build_cfg(f.call.node)
     f.cut = None
@@ -106,6 +134,11 @@ def sower_machine_rule(ctx, rid):
     """C07.R1: the Sower's state machine."""
     rr = ctx.rule(rid, "Sower state machine: one append per call, cut, counter before name, resets, final flush, no empty batch", floor=10)
     f = sower_facts(ctx)
+    if getattr(f, "retry_wrapper", None):
+        m_, c_, cf = f.retry_wrapper
+        rr.bad(ctx.finding(rid, m_, c_, "the batch is written through `%s`, which calls the method again when it fails: %s advances the batch counter before it writes, so a write that fails once and is retried is stored under the *next* id -- "
+                           "one batch id is skipped (missing_results names a batch that does not exist) and every later batch is shifted" % (norm(c_)[:50], f.flush.name), construct="flush-retried"), "flush once per cut")
+        return rr, f
     S = f.cls.qualname
     # ---- __init__ starts from zero / empty
     gi = build_cfg(f.init.node)
@@ -650,6 +683,16 @@ def id_universe_rule(ctx, rid, f=None):
             rr.bad(ctx.finding(rid, mr, c, "missing_results reports the batches whose result file *exists* (the absence test lost / gained a negation): finished batches are grown again and missing ones never", construct="missing-polarity"), "missing polarity")
         else:
             raise AnalysisError("idiom changed: how missing_results uses `%s`" % norm(c)[:60])
+    elif not tests_ and any(isinstance(c, ast.Call) and norm(c.func) in ("os.listdir", "os.scandir", "glob.glob", "glob") for c in ast.walk(mr.node)):
+        # listing shape: ids found in one directory listing, missing = the ids of the range that are NOT among them
+        mem = [x for x in ast.walk(mr.node) if isinstance(x, ast.Compare) and len(x.ops) == 1 and isinstance(x.ops[0], (ast.In, ast.NotIn)) and isinstance(getattr(x, "_parent", None), (ast.comprehension, ast.If))]
+        if len(mem) == 1:
+            if isinstance(mem[0].ops[0], ast.NotIn):
+                rr.ok("missing_results (listing shape) keeps an id exactly when it is not among the listed results")
+            else:
+                rr.bad(ctx.finding(rid, mr, mem[0], "missing_results reports the batches whose result *is* listed: finished batches are grown again and missing ones never", construct="missing-polarity"), "missing polarity")
+        else:
+            raise AnalysisError("idiom changed: membership test of the listing-shaped missing_results (%d found)" % len(mem))
     else:
         raise AnalysisError("idiom changed: result-file test in missing_results (%d found)" % len(tests_))
     return rr
